@@ -115,7 +115,7 @@ M("c13-benign-guard-style", "C13", "json_patch.c",
 
 # ---- C12 -------------------------------------------------------------------------------------
 M("c12-accept-empty", "C12", "json_pointer.c",
-  "\tif (len == 0)\n\t{\n\t\terrno = EINVAL;\n\t\treturn 0;\n\t}\n", "", needle="empty token")
+  "\tif (len == 0)\n\t{\n\t\terrno = EINVAL;\n\t\treturn 0;\n\t}\n", "", needle="for the token ''")
 M("c12-accept-leading-zero", "C12", "json_pointer.c",
   "\tif (path[0] == '0')\n\t{\n\t\terrno = EINVAL;\n\t\treturn 0;\n\t}\n", "", needle="leading zero")
 M("c12-null-not-found", "C12", "json_pointer.c",
@@ -133,7 +133,7 @@ M("c12-leak-copy", "C12", "json_pointer.c",
   "\trc = json_pointer_object_get_recursive(*obj, path_copy, &set);\n\tfree(path_copy);\n",
   "\trc = json_pointer_object_get_recursive(*obj, path_copy, &set);\n\tif (rc == 0)\n\t\tfree(path_copy);\n", needle="strdup")
 M("c12-drop-range-check", "C12", "json_pointer.c",
-  "\t\tif (*idx >= json_object_array_length(obj))\n\t\t{\n\t\t\terrno = ENOENT;\n\t\t\treturn -1;\n\t\t}\n", "", needle="range")
+  "\t\tif (*idx >= json_object_array_length(obj))\n\t\t{\n\t\t\terrno = ENOENT;\n\t\t\treturn -1;\n\t\t}\n", "", needle="array length")
 M("c12-benign-digit-test", "C12", "json_pointer.c",
   "\tif (path[0] == '0')\n\t{", "\tif (!(path[0] != '0'))\n\t{", expect="silent")
 
